@@ -83,7 +83,8 @@ def judge(s, docs, allow_incomplete, how, cfg, vec, tmpdir):
                 roids.add(r.text)
     n_c = classes.count('RunningOrder')
     n_d = classes.count('RunningOrderEnd')
-    accept = (len(docs) >= 1 and len(roids) == 1 and n_c == 1 and n_d <= 1 and (allow_incomplete or n_d == 1))
+    allowed = allow_incomplete is True        # 'omitted' (keyword not passed): incompleteness is not allowed
+    accept = (len(docs) >= 1 and len(roids) == 1 and n_c == 1 and n_d <= 1 and (allowed or n_d == 1))
     mc, err = K.make_collection(s, docs, how, allow_incomplete, tmpdir)
     got = 'accepted' if mc is not None else type(err).__name__
     want = 'accepted' if accept else 'InvalidMosCollection'
@@ -119,7 +120,7 @@ def run(s):
     try:
         idx = 0
         for n_c, n_d, n_o, n_r, two, allow in itertools.product(range(4), range(4), range(4), range(2),
-                                                                (False, True), (False, True)):
+                                                                (False, True), (False, True, 'omitted')):
             for order in (0, 1):
                 idx += 1
                 if not s.mine(idx):
